@@ -179,8 +179,16 @@ class MetadataManager:
                         f"but found: {current.last_updated_ms}"
                     )
 
-                # PHASE 2: Prepare new version
-                new_metadata.last_updated_ms = int(datetime.now().timestamp() * 1000)
+                # PHASE 2: Prepare new version. last_updated_ms is half of the OCC
+                # token (see the check above), so it must change on EVERY commit:
+                # with a coarse or frozen clock a metadata-only commit (snapshot
+                # deletion/expiry - current_snapshot_id unchanged) within the same
+                # millisecond was invisible to a concurrent committer holding the
+                # older base, which then overwrote it. Strictly increasing.
+                new_metadata.last_updated_ms = max(
+                    int(datetime.now().timestamp() * 1000),
+                    base_metadata.last_updated_ms + 1,
+                )
 
                 # Read current version (and, on CAS backends, the hint's ETag so
                 # the commit point below can be a true compare-and-swap).
